@@ -195,6 +195,89 @@ AES_THMS = {
 }
 
 
+def check_c09(pid, tier, replay=None):
+    import subprocess
+    from concurrent.futures import ThreadPoolExecutor
+    chk = vlib.Check(pid, tier)
+    b = vlib.build_repo.get_build("default")
+    # T-route: re-extract the constant table from the current source
+    r = vlib.run(["python3", os.path.join(vlib.VERIF, "tools", "gen_rolling_table.py"),
+                  os.path.join(b, "src", "rolling_hash", "rolling_hash2_table.h"), vlib.LEAN])
+    chk.oblige("translator: rolling_hash2_table1[256] extracted from rolling_hash2_table.h", r.returncode == 0, (r.stdout + r.stderr)[-200:])
+    thms = ["IsalVerif.Props.C09.C09_run", "IsalVerif.Props.C09.C09_hash", "IsalVerif.Props.C09.C09_boundaries",
+            "IsalVerif.Props.C09.C09_split", "IsalVerif.Props.C09.C09_split_progress", "IsalVerif.Props.C09.C09_mask_gen"]
+    failed = vlib.lean_obligations(chk, "IsalVerif.Props.C09", thms, extra_targets=["IsalVerif.GenProps.RollingTable", "isal_model"])
+    ax, _ = vlib.print_axioms("IsalVerif.GenProps.RollingTable", ["IsalVerif.GenProps.rollingTable_pinned"])
+    okp = ax.get("IsalVerif.GenProps.rollingTable_pinned") is not None and not failed
+    chk.oblige("lean:IsalVerif.GenProps.rollingTable_pinned (table of the current source = pinned table)", okp, str(ax))
+    drv = vlib.harness_bin("drv_rolling", cflags=("-Wl,--wrap=_rolling_hash2_run_until",), libs=())
+    if tier == "quick":
+        nops, maxlen, seeds = 8000, 600, [chk.seed]
+    else:
+        nops, maxlen, seeds = 60000, 6000, [chk.seed * 100 + k for k in range(6)]
+    d = vlib.scratch()
+
+    def one(job):
+        impl, seed = job
+        ops = os.path.join(d, "rops_%s_%d" % (impl, seed)); res = os.path.join(d, "rres_%s_%d" % (impl, seed))
+        rr = subprocess.run([drv, impl, str(seed), str(nops), str(maxlen), ops, res], capture_output=True, text=True)
+        with open(ops) as fh:
+            m = subprocess.run([vlib.MODEL_BIN], stdin=fh, capture_output=True, text=True)
+        lines = [l for l in open(res).read().split("\n") if l] + [l for l in (rr.stdout + "\n" + rr.stderr).split("\n") if l.startswith(("MONITOR", "SUMMARY"))]
+        mons = [l for l in lines if l.startswith("MONITOR")]
+        il = [l for l in lines if not l.startswith(("MONITOR", "END", "SUMMARY"))]
+        ml = [l for l in m.stdout.split("\n") if l]
+        ol = open(ops).read().split("\n")
+        diffs = [{"line": i + 1, "op": ol[i] if i < len(ol) else "?", "impl": a[:200], "model": bb[:200]}
+                 for i, (a, bb) in enumerate(zip(il, ml)) if a != bb][:5]
+        if len(il) != len(ml):
+            diffs.append({"line": -1, "op": "length", "impl": str(len(il)), "model": str(len(ml))})
+        summ = [l for l in lines if l.startswith("SUMMARY")]
+        return {"impl": impl, "seed": seed, "exit": rr.returncode, "mons": mons, "diffs": diffs, "ops": len(il),
+                "summary": summ[0] if summ else "", "sample": [ol[i] + " -> " + il[i][:80] for i in range(1, min(5, len(il)))]}
+
+    if not failed and r.returncode != 0:
+        failed = [("gen_rolling_table", r.stderr[-300:])]
+    for name, detail in failed:
+        chk.violation("Lean obligation no longer checks: %s" % name, {"kind": "obligation", "obligation": name, "detail": detail}, no_input=True)
+    if not okp and not failed:
+        chk.violation("the library's rolling-hash table differs from the pinned table (hash of every window containing a changed byte value differs)",
+                      {"kind": "obligation", "obligation": "IsalVerif.GenProps.rollingTable_pinned"}, no_input=True)
+    jobs = [(i, s) for i in ("base", "00", "04", "pub") for s in seeds]
+    with ThreadPoolExecutor(max_workers=8) as ex:
+        results = list(ex.map(one, jobs))
+    total = 0
+    for r2 in results:
+        total += r2["ops"]
+        okc = not r2["mons"] and not r2["diffs"] and r2["exit"] in (0,)
+        chk.oblige("correspondence+monitor rolling/%s seed=%d" % (r2["impl"], r2["seed"]), okc,
+                   "ops=%d diffs=%d monitors=%d %s" % (r2["ops"], len(r2["diffs"]), len(r2["mons"]), r2["summary"][:120]))
+        if r2["mons"]:
+            mini = [m for m in r2["mons"] if " MINIMAL " in m] or r2["mons"]
+            kind = mini[0].split()[1]
+            chk.violation("%s in rolling/%s" % (kind, r2["impl"]),
+                          {"kind": "input", "family": "rolling/" + r2["impl"], "args": [r2["impl"], str(r2["seed"]), str(nops), str(maxlen)],
+                           "monitor": mini[0][:400], "minimized": True},
+                          match={"family": "rolling/" + r2["impl"], "monitor": kind})
+        elif r2["diffs"] or r2["exit"] != 0:
+            chk.violation("model/implementation correspondence broke for rolling/%s" % r2["impl"],
+                          {"kind": "obligation", "obligation": "correspondence rolling/%s" % r2["impl"], "first_disagreement": (r2["diffs"] or [None])[0],
+                           "args": [r2["impl"], str(r2["seed"]), str(nops), str(maxlen)]}, no_input=True,
+                          match={"family": "rolling/" + r2["impl"], "monitor": "correspondence"})
+        if len(chk.samples) < 4:
+            chk.samples.append({"impl": r2["impl"], "ops": r2["sample"]})
+    chk.cov["evaluations"] = total
+    chk.cov["distinct_nontrivial"] = total
+    chk.cov["summaries"] = [r2["summary"] for r2 in results][:8]
+    chk.trusted = ["Lean 4.33.0 kernel; axioms propext, Classical.choice, Quot.sound",
+                   "hand-written model lean/IsalVerif/Impl/RollingRun.lean (follows rolling_hash2.c + the base scan) tied by correspondence; "
+                   "the two assembly scans are specified by the same function and checked by the harness (forced through -Wl,--wrap)",
+                   "tools/gen_rolling_table.py (textual extraction of the 256-entry table, strict)"]
+    return chk.finish(level="proof", rule="seeded init/reset/run/mask_gen op streams: windows 1..48 (weighted to 1,2,3,47,48), max_len clustered "
+                      "at 0,1,w-1,w,w+1,2w, masks from mask_gen and sparse masks so that hits are frequent; every run also executed "
+                      "with the base scan on a copy of the state")
+
+
 def check_c12(pid, tier, replay=None):
     import random, subprocess
     chk = vlib.Check(pid, tier)
@@ -375,7 +458,7 @@ def check_c15(pid, tier, replay=None):
                       "digests/totals compared with the Lean model and the final digest with OpenSSL")
 
 
-CHECKS = {"C01": check_hash, "C06": check_hash, "C11": check_hash, "C15": check_c15, "C12": check_c12,
+CHECKS = {"C01": check_hash, "C06": check_hash, "C11": check_hash, "C15": check_c15, "C12": check_c12, "C09": check_c09,
           "C02": check_aes, "C03": check_aes, "C04": check_aes, "C07": check_aes}
 
 
